@@ -103,6 +103,14 @@ func C12(c *core.Ctx) {
 			opts = &protocol.MessageOptions{Size: &sz, Compressed: "gzip"}
 		case 3:
 			preset = fmt.Sprintf("preset-%d", r.Intn(1000))
+			switch r.Intn(6) { // ids relayed from other senders: base64 with a trailing newline, padded, blank
+			case 0:
+				preset += "\n"
+			case 1:
+				preset = " " + preset + "\t"
+			case 2:
+				preset = []string{" ", "\n", "\t \r\n"}[r.Intn(3)]
+			}
 			opts = &protocol.MessageOptions{Chunk: preset}
 		}
 		m := chunkable(mode, opts)
